@@ -844,3 +844,47 @@ def _root_local_of(f, l):
         else:
             return l
     return l
+
+
+# ---------------------------------------------------------------------------------------------------------------------
+# R-FLIP-SEQUENTIAL (C12): flip is a sequence of exchanges
+
+@rule("R-FLIP-SEQUENTIAL", ["C12"])
+def r_flip_sequential(cx):
+    """`stack flip=i,j,..` exchanges, one after the other, coordinate element i with the top of the stack, element j
+    with the next level, and so on. Each exchange is a swap of the *current* values: what goes to the stack is read from
+    the working tuple as the earlier exchanges of the same flip left it (a value carried around the inner loop), not
+    from a snapshot of the operand taken before the flip - with a repeated index (`flip=3,3`) the snapshot would put
+    the same value on the stack twice and lose another."""
+    import pertuple
+    f = cx.f.fn("inner_op::stack::stack_flip")
+    inner = [lp for lp in f.loops() if lp.parent is not None]
+    n = 0
+    for lp in inner:
+        for bb, i, s in f.all_stmts():
+            if bb not in lp.body or s["k"] != "assign" or "deref" not in [p for p in s["place"]["p"] if isinstance(p, str)]:
+                continue
+            v = f.rvalue(s["rv"], (bb, i))
+            arg1 = []
+            mir.walk(v, lambda y: (arg1.append(1) if y == ("arg", 1) else None) or True)
+            base = mir.strip_refs(v)
+            if arg1:
+                # unless the value is the stack element itself it is not a store *to* the stack
+                b0 = base
+                while b0[0] == "proj":
+                    b0 = mir.strip_refs(b0[1])
+                if b0 == ("arg", 1):
+                    continue
+            while base[0] == "proj":
+                base = mir.strip_refs(base[1])
+            n += 1
+            ok = base[0] in ("loopphi", "phi", "upd") and (base[0] != "loopphi" or base[1][0] == lp.header)
+            if base[0] in ("phi", "upd"):
+                ms = pertuple.mentions_loopphi(base, lp.header, f)
+                ok = bool(ms)
+            cx.ob("R-FLIP-SEQUENTIAL", "stack_flip/to-stack%d" % (n - 1), ok,
+                  "the value exchanged onto the stack is read from the working tuple of the running flip" if ok else
+                  "stack_flip stores a value read from a copy of the operand taken before the flip (not from the tuple as "
+                  "the earlier exchanges left it): with a repeated index, e.g. `flip=3,3`, one value is duplicated on the "
+                  "stack and another is lost", cx.where(s.get("span")))
+    cx.count("R-FLIP-SEQUENTIAL", "stack_stores", n)
